@@ -233,11 +233,20 @@ def run_case(tier, seed, index, spec=None):
     repeated = 0
     for step, q in enumerate(seq):
         before = snapshot(fgg, (g2, g2b))
+        try:
+            twin = fgg.copy()             # == is a public observation too: the grammar must stay equal to a copy taken before
+            twin_ok = (fgg == twin)
+        except Exception:                 # a failing copy() is judged by C16, not here
+            twin, twin_ok = None, False
         out = C.call(do, q)
         obs['queries'] += 1
         after = snapshot(fgg, (g2, g2b))
         obs['snapshots_compared'] += 1
         d = diff_snapshot(before, after)
+        if d is None and twin_ok:
+            obs['equality_with_earlier_copy_checked'] = obs.get('equality_with_earlier_copy_checked', 0) + 1
+            if not (fgg == twin):
+                d = 'the grammar is no longer == to a copy taken before the query (hidden state changed)'
         ctx = dict(step=step, query=q, sequence=seq, requires_grad=grad, patterned=typed)
         if d:
             viols.append(C.viol(f'input-mutated:{q}', f'{q} (step {step}, {"raised " + str(out["exc"]) if not out["ok"] else "ok"}): {d}', context=ctx))
